@@ -3,11 +3,13 @@
 From Coq Require Import Extraction ExtrOcamlBasic.
 From Coq Require Import ZArith.
 From Sbepp Require Import CInt.
+From Sbepp Require Import StaticArray.
 From Sbepp Require Import Bitset.
 From Sbepp Require Import Bytes Msg Layout Wire.
 From Sbepp Require Import Cursor.
+From Sbepp Require Import CursorSpec.
 Extraction Language OCaml.
-Extraction "model.ml"
+Separate Extraction
   Z.add
   Z.mul
   Z.sub
@@ -38,6 +40,21 @@ Extraction "model.ml"
   CInt.csub
   CInt.cshl
   CInt.ccast
+  StaticArray.SArr.assign_string_ptr
+  StaticArray.SArr.assign_string_range
+  StaticArray.SArr.assign_range
+  StaticArray.SArr.assign_iter
+  StaticArray.SArr.assign_ilist
+  StaticArray.SArr.assign_count
+  StaticArray.SArr.fill
+  StaticArray.SArr.strlen
+  StaticArray.SArr.strlen_r
+  StaticArray.SArr.Legacy.strlen
+  StaticArray.SArr.spec_assign_string
+  StaticArray.SArr.spec_assign
+  StaticArray.SArr.spec_strlen
+  StaticArray.SArr.spec_strlen_r
+  StaticArray.SArr.split3
   Bitset.get_bit
   Bitset.set_bit
   Bitset.Legacy.get_bit
@@ -73,7 +90,7 @@ Extraction "model.ml"
   Msg.assign_data
   Msg.entry_size_bytes
   Msg.flat_group_size
-  Msg.Legacy.flat_group_size
+  Msg.LegacyMsg.flat_group_size
   Msg.is_flat
   Msg.tbytes
   Layout.compile_message
@@ -94,4 +111,7 @@ Extraction "model.ml"
   Msg.nth_data_pos
   Msg.groups_end
   Msg.default_fuel
-  Msg.group_at.
+  Msg.group_at
+  CursorSpec.trait_size
+  CursorSpec.counts_gs
+  CursorSpec.data_total.
